@@ -92,6 +92,8 @@ def dir_items(draw, depth, full, gopher_ok, toplevel, max_items=5, kinds=None, l
                                                               "8Library catalogue\tguest\ttelnet.example.org\t23",
                                                               "TMainframe\t\ttn.example.org\t23", "7Search the other site\t/v2/vs\tgopher.example.org\t70",
                                                               "3Error with a selector\t/gone\tother.example.org\t70",
+                                                              # search items of this server whose selectors travel escaped in a URL
+                                                              "7Find it here\t/cgi bin/find it.sh", "7Recherche\t/caf\xe9 q.sh",
                                                               # links to URLs (doc/standards/url.txt: items of THIS server that a Gopher client
                                                               # asks for and gets a redirect page), in schemes of all kinds
                                                               "hThe web site\tURL:http://www.example.org/", "hChat with us\tURL:irc://irc.example.org/gopher",
